@@ -21,7 +21,9 @@ MANIFEST = dict(
          'position-level proof with range and front-order invariants), insertion of non-reversal samples changes no reported value (unbounded: the '
          'reported values are a function of the turning-point sequence); NaN dropping: a literal model of clean_nans + the index-correction loop reports the '
          'values of the NaN-free signal and indices that address, in the original signal, non-NaN samples holding the value (nan_drop_index, '
-         'unbounded).  Index tracking under refinement, NaN handling inside the detectors and Series handling are decided by '
+         'unbounded); a NaN-containing signal fed in any chunking (chunks cleaned one by one, all-NaN chunks are no-ops) yields the cycles, residual and residual '
+         'indices of the NaN-free signal in one piece for all three detectors (nan_chunked_4pt/_3pt/_fkm, unbounded corollaries of the C01 theorems).  '
+         'Index tracking under refinement, NaN handling inside the detectors and Series handling are decided by '
          'relations on the implementation on every run.',
     note=common.TB_NOTE + 'no axioms under any C03 theorem. Hand-written model tied by correspondence; integer-valued signals in the model; '
          'NaN handling is modelled for find_turns (tied by its own correspondence run), not for the detectors\' tail bookkeeping; pandas Series glue is not modelled (implementation relations only).',
